@@ -443,14 +443,16 @@ def no_request_reaches_a_handler_without_reply(ctx):
     h = _handle(m)
     ctx.analysed(h)
     for action in sorted(silent):
-        tests = [n for n in body_walk(h.node) if isinstance(n, ast.If) and any(call_attr(c) == f'handle_{action}' for st in n.body for c in calls_in(st))]
+        tests = [n for n in body_walk(h.node) if isinstance(n, ast.If) and any(call_attr(c) == f'handle_{action}' for st in n.body + n.orelse for c in calls_in(st))
+                 and not any(isinstance(x, ast.If) and x is not n and any(call_attr(c) == f'handle_{action}' for st in x.body + x.orelse for c in calls_in(st))
+                             for st in n.body + n.orelse for x in ast.walk(st))]
         construct = f'{h.qualname}:every {action!r} request is answered by the interface'
         if not tests:
             ctx.bad(construct, h.node, f'Dispatcher.handle_{action} returns no reply triple and the interface does not intercept {action!r} requests', h)
             continue
         for t in tests:
             c = t.test
-            ok = isinstance(c, ast.Compare) and len(c.ops) == 1 and isinstance(c.ops[0], ast.Eq) and 'msg[0]' in (src(c.left), src(c.comparators[0]))
+            ok = isinstance(c, ast.Compare) and len(c.ops) == 1 and isinstance(c.ops[0], (ast.Eq, ast.NotEq)) and 'msg[0]' in (src(c.left), src(c.comparators[0]))
             ctx.check(ok, construct, t, f'`{src(c)}` looks at the action only',
                       f'`{src(c)}` does not intercept every request whose action is {action!r}: a {action} line with a specifier or data reaches '
                       f'Dispatcher.handle_{action}, which returns None, and `result[0]` then raises outside every try - the connection handler ends', h)
